@@ -10,16 +10,18 @@
       productions; [rk] ranks the non-terminals such that for every production [A -> X1..Xn] and
       every position [i] whose OTHER positions are all marked non-terminals, [Xi = NT B] implies
       [rk B < rk A].  This excludes [A =>+ A].
-    - [stack_rank_ok g tb nl ann srk] (table, through the annotation that [lr_safe_check]
-      validates): every state [s'] other than 0 has a known incoming symbol [x] and a set [c] of
-      states it may sit on.  If [x] is a marked non-terminal then [srk s' < srk s] for every
-      [s] in [c] on which an entry for [x] with an EMPTY subtree can be pushed at all
-      ([eps_edge]): state [s] itself reduces an empty production of [x] (the reducing state of
-      a reduction of length 0 is the state the result is pushed on), or some action of the table
-      reduces a production of [x] of length > 0 whose right-hand side consists of marked
-      non-terminals only.  This bounds the number of consecutive parser-stack entries that carry
-      an empty subtree.  It is NEEDED: [lr_safe_check] is a safety check only, and the
-      statement without this hypothesis is false, see [lr_terminates_refuted].
+    - [stack_rank_ok g tb nl ann E srk] (table, through the annotation that [lr_safe_check]
+      validates).  [E] is a CHECKED certificate set of pairs (state [s], non-terminal [x]): "an
+      entry for [x] with an EMPTY subtree may be pushed directly on state [s]".  [eps_closed]
+      checks that [E] is closed: for every production [p] whose right-hand side [X1..Xn]
+      consists of marked non-terminals only and every state [t0], if the goto chain
+      [t0 -X1-> t1 .. -Xn-> tn] exists with [(t(i-1), Xi)] in [E] at every step and [tn] has an
+      action [Reduce (lhs p) p], then [(t0, lhs p)] is in [E].  The rank part: every state [s']
+      other than 0 has a known incoming symbol [x] and a set [c] of states it may sit on; if [x]
+      is a marked non-terminal then [srk s' < srk s] for every [s] in [c] with [(s, x)] in [E].
+      This bounds the number of consecutive parser-stack entries that carry an empty subtree.
+      It is NEEDED: [lr_safe_check] is a safety check only, and the statement without this
+      hypothesis is false, see [lr_terminates_refuted].
 
     Main results
       [eps_tree_bound], [tree_size_bound]  size of derivation trees of certified grammars;
@@ -28,9 +30,10 @@
       [lr_terminates_refuted]              the statement without [stack_rank_ok] is false;
       [cyc_never_acyclic], [cyc_loops]     the cyclic grammar [S: A; A: A | 'a'] has no certificate
                                            and its (validated) table loops for ever.
-      [amb_terminates_instance]            a real table with a resolved conflict passes.
-    Executable (extraction): [acyclic_ok], [stack_rank_ok] (with [eps_red_nts], [eps_edge],
-      [local_eps]), [find_acyclic_cert], [find_stack_ranks], [lr_fuel_bound]. *)
+      [amb_terminates_instance], [bae_terminates_instance]
+                                           real tables with resolved conflicts pass.
+    Executable (extraction): [acyclic_ok], [stack_rank_ok] (with [eps_closed], [eps_edge]),
+      [find_acyclic_cert], [find_eps_set], [find_stack_ranks], [lr_fuel_bound]. *)
 From Coq Require Import List NArith Arith Bool Lia.
 From Parol Require Import Grammar.Cfg Runtime.LRParser Tables.LRValidate.
 Import ListNotations.
@@ -80,62 +83,73 @@ Definition srk_lt (srk : list N) (s' s : N) : bool :=
   | _, _ => false
   end.
 
-(** [local_eps tb s a]: state [s] has an action [Reduce a p] with [lp_len p = 0]. *)
-Definition local_eps (tb : lr_table) (s a : N) : bool :=
-  match nth_error (lr_states tb) (N.to_nat s) with
-  | None => false
-  | Some st =>
-      existsb (fun e => match nth_error (lr_actions tb) (N.to_nat (snd e)) with
-                        | Some (Reduce nt p) =>
-                            N.eqb nt a &&
-                            match nth_error (lr_prods tb) (N.to_nat p) with
-                            | Some lp => Nat.eqb (lp_len lp) 0
-                            | None => false
-                            end
-                        | _ => false
-                        end) (st_actions st)
-  end.
-
-(** Non-terminals [x] for which the table has an action [Reduce x p], [lp_len p > 0], whose
-    grammar production has marked non-terminals only on its right-hand side. *)
-Definition eps_red_nts (g : cfg) (tb : lr_table) (nl : list bool) : list N :=
-  flat_map (fun act => match act with
-                       | Reduce nt p =>
-                           match nth_error (lr_prods tb) (N.to_nat p), nth_error (prods g) (N.to_nat p) with
-                           | Some lp, Some pr =>
-                               if negb (Nat.eqb (lp_len lp) 0) && forallb (null_sym nl) (rhs pr)
-                               then [nt] else []
-                           | _, _ => []
-                           end
-                       | _ => []
-                       end) (lr_actions tb).
-
-(** Over-approximation of "an entry for [a] with an empty subtree can be pushed on state [s]";
-    [glob] is [eps_red_nts g tb nl], computed once. *)
-Definition eps_edge (tb : lr_table) (glob : list N) (s a : N) : bool :=
-  memN a glob || local_eps tb s a.
-
-Definition stack_state_ok (tb : lr_table) (nl : list bool) (glob : list N) (srk : list N)
-  (s' : N) (l : list ann_entry) : bool :=
-  if N.eqb s' 0 then true
-  else match l with
-       | [] => false
-       | (NT a, c) :: _ =>
-           if marked nl a
-           then forallb (fun s => implb (eps_edge tb glob s a) (srk_lt srk s' s)) c
-           else true
-       | (T _, _) :: _ => true
-       end.
-
 Fixpoint forallbi {A : Type} (f : N -> A -> bool) (i : N) (l : list A) : bool :=
   match l with
   | [] => true
   | a :: l' => f i a && forallbi f (N.succ i) l'
   end.
 
+(** [eps_edge E s a]: the pair (state [s], non-terminal [a]) is in the certificate set. *)
+Definition eps_edge (E : list (N * N)) (s a : N) : bool :=
+  existsb (fun e => N.eqb (fst e) s && N.eqb (snd e) a) E.
+
+(** [LRParseTable::goto] without the panics. *)
+Definition goto_of (tb : lr_table) (s a : N) : option N :=
+  match nth_error (lr_states tb) (N.to_nat s) with
+  | Some st => assoc a (st_gotos st)
+  | None => None
+  end.
+
+(** Follow the gotos from [t] along [l], every step being in [E]; the state reached. *)
+Fixpoint eps_chain (tb : lr_table) (E : list (N * N)) (t : N) (l : list sym) : option N :=
+  match l with
+  | [] => Some t
+  | NT a :: l' =>
+      if eps_edge E t a
+      then match goto_of tb t a with
+           | Some t' => eps_chain tb E t' l'
+           | None => None
+           end
+      else None
+  | T _ :: _ => None
+  end.
+
+(** State [s] has some action entry whose action is [Reduce a p]. *)
+Definition has_reduce (tb : lr_table) (s a p : N) : bool :=
+  match nth_error (lr_states tb) (N.to_nat s) with
+  | None => false
+  | Some st =>
+      existsb (fun e => match nth_error (lr_actions tb) (N.to_nat (snd e)) with
+                        | Some (Reduce nt p') => N.eqb nt a && N.eqb p' p
+                        | _ => false
+                        end) (st_actions st)
+  end.
+
+Definition eps_closed (g : cfg) (tb : lr_table) (nl : list bool) (E : list (N * N)) : bool :=
+  forallbi (fun p pr =>
+              if forallb (null_sym nl) (rhs pr)
+              then forallbi (fun t0 (_ : lr_state) =>
+                               match eps_chain tb E t0 (rhs pr) with
+                               | Some tn => implb (has_reduce tb tn (lhs pr) p) (eps_edge E t0 (lhs pr))
+                               | None => true
+                               end) 0%N (lr_states tb)
+              else true) 0%N (prods g).
+
+Definition stack_state_ok (nl : list bool) (E : list (N * N)) (srk : list N)
+  (s' : N) (l : list ann_entry) : bool :=
+  if N.eqb s' 0 then true
+  else match l with
+       | [] => false
+       | (NT a, c) :: _ =>
+           if marked nl a
+           then forallb (fun s => implb (eps_edge E s a) (srk_lt srk s' s)) c
+           else true
+       | (T _, _) :: _ => true
+       end.
+
 Definition stack_rank_ok (g : cfg) (tb : lr_table) (nullable : list bool) (ann : annotation)
-  (srk : list N) : bool :=
-  forallbi (stack_state_ok tb nullable (eps_red_nts g tb nullable) srk) 0%N ann.
+  (E : list (N * N)) (srk : list N) : bool :=
+  eps_closed g tb nullable E && forallbi (stack_state_ok nullable E srk) 0%N ann.
 
 (** ** Certificate search (UNVERIFIED by design: results are only used through the checks) *)
 Definition maxN (l : list N) : N := fold_left N.max l 0%N.
@@ -197,8 +211,39 @@ Definition find_acyclic_cert (g : cfg) : list bool * list N :=
   let nl := find_nullable g in
   (nl, relax_loop (S (nt_count g)) (rank_edges g nl) (repeat 0%N (nt_count g))).
 
-Definition stack_edges (tb : lr_table) (nl : list bool) (glob : list N) (ann : annotation)
+Fixpoint foldi {A B : Type} (f : N -> A -> B -> B) (i : N) (l : list A) (b : B) : B :=
+  match l with
+  | [] => b
+  | a :: l' => foldi f (N.succ i) l' (f i a b)
+  end.
+
+(** One pass of the closure: add every pair that [eps_closed] demands. *)
+Definition eps_pass (g : cfg) (tb : lr_table) (nl : list bool) (E : list (N * N))
+  : list (N * N) * bool :=
+  foldi (fun p pr (acc : list (N * N) * bool) =>
+           if forallb (null_sym nl) (rhs pr)
+           then foldi (fun t0 (_ : lr_state) (acc' : list (N * N) * bool) =>
+                         let (E', ch) := acc' in
+                         if eps_edge E' t0 (lhs pr) then acc'
+                         else match eps_chain tb E' t0 (rhs pr) with
+                              | Some tn => if has_reduce tb tn (lhs pr) p
+                                           then ((t0, lhs pr) :: E', true) else acc'
+                              | None => acc'
+                              end) 0%N (lr_states tb) acc
+           else acc) 0%N (prods g) (E, false).
+
+Fixpoint eps_loop (fuel : nat) (g : cfg) (tb : lr_table) (nl : list bool) (E : list (N * N))
   : list (N * N) :=
+  match fuel with
+  | O => E
+  | S fuel' => let (E', ch) := eps_pass g tb nl E in if ch then eps_loop fuel' g tb nl E' else E'
+  end.
+
+(** Least closed set: every pass that changes something adds a new (state, non-terminal) pair. *)
+Definition find_eps_set (g : cfg) (tb : lr_table) (nl : list bool) : list (N * N) :=
+  eps_loop (S (length (lr_states tb) * nt_count g)) g tb nl [].
+
+Definition stack_edges (nl : list bool) (E : list (N * N)) (ann : annotation) : list (N * N) :=
   (fix go (i : N) (a : annotation) : list (N * N) :=
      match a with
      | [] => []
@@ -206,13 +251,13 @@ Definition stack_edges (tb : lr_table) (nl : list bool) (glob : list N) (ann : a
          (match l with
           | (NT x, c) :: _ =>
               if marked nl x
-              then map (fun s => (s, i)) (filter (fun s => eps_edge tb glob s x) c) else []
+              then map (fun s => (s, i)) (filter (fun s => eps_edge E s x) c) else []
           | _ => []
           end) ++ go (N.succ i) a'
      end) 0%N ann.
 
-Definition find_stack_ranks (g : cfg) (tb : lr_table) (nl : list bool) (ann : annotation) : list N :=
-  relax_loop (S (length ann)) (stack_edges tb nl (eps_red_nts g tb nl) ann) (repeat 0%N (length ann)).
+Definition find_stack_ranks (nl : list bool) (ann : annotation) (E : list (N * N)) : list N :=
+  relax_loop (S (length ann)) (stack_edges nl E ann) (repeat 0%N (length ann)).
 
 (** ** Size of derivation trees of certified grammars *)
 Definition nodes (t : tree) : nat := length (postorder t).
@@ -593,16 +638,43 @@ Proof.
 Qed.
 
 (** What the table check gives for one state (no other hypothesis needed). *)
-Lemma stack_rank_ok_spec g tb nl ann srk s a c l' s1 :
-  stack_rank_ok g tb nl ann srk = true ->
+Lemma stack_rank_ok_spec g tb nl ann E srk s a c l' s1 :
+  stack_rank_ok g tb nl ann E srk = true ->
   ann_of ann s = Some ((NT a, c) :: l') -> s <> 0%N -> marked nl a = true ->
-  In s1 c -> eps_edge tb (eps_red_nts g tb nl) s1 a = true -> srk_lt srk s s1 = true.
+  In s1 c -> eps_edge E s1 a = true -> srk_lt srk s s1 = true.
 Proof.
-  intros Hsr Hl Hne Hm Hin He. unfold stack_rank_ok in Hsr. unfold ann_of in Hl.
+  intros Hsr Hl Hne Hm Hin He. unfold stack_rank_ok in Hsr. apply andb_prop in Hsr.
+  destruct Hsr as [_ Hsr]. unfold ann_of in Hl.
   pose proof (forallbi_nth _ _ _ _ _ Hsr Hl) as H.
   replace (0 + N.of_nat (N.to_nat s))%N with s in H by lia.
-  unfold stack_state_ok in H. destruct (N.eqb_spec s 0) as [E|_]; [contradiction|].
+  unfold stack_state_ok in H. destruct (N.eqb_spec s 0) as [E0|_]; [contradiction|].
   rewrite Hm in H. rewrite forallb_forall in H. specialize (H s1 Hin). rewrite He in H. exact H.
+Qed.
+
+Lemma stack_rank_ok_nonempty g tb nl ann E srk s :
+  stack_rank_ok g tb nl ann E srk = true -> ann_of ann s = Some [] -> s = 0%N.
+Proof.
+  intros Hsr Hl. unfold stack_rank_ok in Hsr. apply andb_prop in Hsr.
+  destruct Hsr as [_ Hsr]. unfold ann_of in Hl.
+  pose proof (forallbi_nth _ _ _ _ _ Hsr Hl) as H.
+  replace (0 + N.of_nat (N.to_nat s))%N with s in H by lia.
+  unfold stack_state_ok in H. destruct (N.eqb_spec s 0) as [E0|_]; [exact E0|discriminate].
+Qed.
+
+(** What closedness of the certificate set gives. *)
+Lemma eps_closed_spec g tb nl E p pr t0 st0 tn :
+  eps_closed g tb nl E = true ->
+  nth_error (prods g) (N.to_nat p) = Some pr -> forallb (null_sym nl) (rhs pr) = true ->
+  nth_error (lr_states tb) (N.to_nat t0) = Some st0 ->
+  eps_chain tb E t0 (rhs pr) = Some tn -> has_reduce tb tn (lhs pr) p = true ->
+  eps_edge E t0 (lhs pr) = true.
+Proof.
+  intros Hc Hp Hall Ht Hch Hred. unfold eps_closed in Hc.
+  pose proof (forallbi_nth _ _ _ _ _ Hc Hp) as H. cbv beta in H.
+  replace (0 + N.of_nat (N.to_nat p))%N with p in H by lia. rewrite Hall in H.
+  pose proof (forallbi_nth _ _ _ _ _ H Ht) as H'. cbv beta in H'.
+  replace (0 + N.of_nat (N.to_nat t0))%N with t0 in H' by lia.
+  rewrite Hch, Hred in H'. exact H'.
 Qed.
 
 Lemma memN_In x l : In x l -> memN x l = true.
@@ -617,22 +689,28 @@ Section Termination.
   Variable tb : lr_table.
   Variable ann : annotation.
   Variable nl : list bool.
-  Variable rk srk : list N.
+  Variable rk : list N.
+  Variable E : list (N * N).
+  Variable srk : list N.
   Hypothesis Hchk : lr_safe_check g tb ann = true.
   Hypothesis Hac : acyclic_ok g nl rk = true.
-  Hypothesis Hsr : stack_rank_ok g tb nl ann srk = true.
+  Hypothesis Hsr : stack_rank_ok g tb nl ann E srk = true.
 
   Let K := max_rank srk.
   Let W := S (max_rank rk).
   Let D := node_cost g rk.
-  Let glob := eps_red_nts g tb nl.
 
-  (** Every entry with an empty subtree sits on a state on which such an entry can be pushed. *)
+  Lemma Hclosed : eps_closed g tb nl E = true.
+  Proof. unfold stack_rank_ok in Hsr. apply andb_prop in Hsr. apply Hsr. Qed.
+
+  (** Every entry with an empty subtree and root [a], sitting directly on state [s] under state
+      [s'], is certified by [E], and [s'] is the goto of [s] on [a]. *)
   Inductive eps_inv : list N -> list tree -> Prop :=
   | ei_base s : eps_inv [s] []
   | ei_push s' s ss t ts :
       eps_inv (s :: ss) ts ->
-      (yield t = [] -> forall a, root_sym t = NT a -> eps_edge tb glob s a = true) ->
+      (yield t = [] -> forall a, root_sym t = NT a ->
+         eps_edge E s a = true /\ goto_of tb s a = Some s') ->
       eps_inv (s' :: s :: ss) (t :: ts).
 
   Lemma eps_inv_skipn n : forall ss ts,
@@ -643,10 +721,26 @@ Section Termination.
     simpl. apply IH; [exact H'|simpl; lia].
   Qed.
 
-  Lemma eps_inv_retop s' s ss ts : eps_inv (s :: ss) ts -> eps_inv (s' :: ss) ts.
+  (** The popped entries of a reduction with an empty result form a certified goto chain from
+      the exposed state up to the reducing state. *)
+  Lemma eps_inv_chain n : forall ss ts top rest',
+    eps_inv ss ts -> ss = top :: rest' -> n < length ss ->
+    (forall c, In c (firstn n ts) -> yield c = [] /\ exists a, root_sym c = NT a) ->
+    exists t0 rest, skipn n ss = t0 :: rest /\
+      forall l tfin, eps_chain tb E top l = Some tfin ->
+                     eps_chain tb E t0 (map root_sym (rev (firstn n ts)) ++ l) = Some tfin.
   Proof.
-    intros H. inversion H as [s0|s0' s0 ss' t ts' H' He]; subst; [constructor|].
-    constructor; assumption.
+    induction n as [|n IH]; intros ss ts top rest' H Ess Hn Hall; subst ss.
+    - exists top, rest'. split; [reflexivity|]. intros l tfin Hl. exact Hl.
+    - inversion H as [s|s' s ss' t ts' H' He]; subst; [simpl in Hn; lia|].
+      destruct (Hall t (or_introl eq_refl)) as (Hy & a & Hroot).
+      destruct (He Hy a Hroot) as (Hedge & Hgoto).
+      assert (Hn' : n < length (s :: ss')) by (simpl in Hn |- *; lia).
+      destruct (IH (s :: ss') ts' s ss' H' eq_refl Hn') as (t0 & rest & Hsk & Hch).
+      { intros c Hc. apply Hall. right. exact Hc. }
+      exists t0, rest. split; [exact Hsk|]. intros l tfin Hl.
+      cbn [firstn rev]. rewrite map_app, <- app_assoc. cbn [map app]. apply Hch.
+      rewrite Hroot. cbn [eps_chain]. rewrite Hedge, Hgoto. exact Hl.
   Qed.
 
   (** One step preserves it (together with the soundness invariant). *)
@@ -678,44 +772,41 @@ Section Termination.
       destruct (handle_pop g tb ann Hchk _ _ _ _ _ _ _ Hs Hl Eh Hts)
         as (lp & pr & s & rest & Epr & Elhs & Hcall & Hnode & Hlt & Hsk & Hin & Hs').
       rewrite Hcall, Hlt, Hsk.
-      destruct (nth_error (lr_states tb) (N.to_nat s)) as [st'|]; [|discriminate].
-      destruct (assoc nt (st_gotos st')) as [gt|]; [|discriminate].
+      destruct (nth_error (lr_states tb) (N.to_nat s)) as [st'|] eqn:Est'; [|discriminate].
+      destruct (assoc nt (st_gotos st')) as [gt|] eqn:Egt; [|discriminate].
       intros H. inversion H; subst c'. cbn [c_states c_trees].
-      assert (Hlp : exists lp', nth_error (lr_prods tb) (N.to_nat p) = Some lp' /\
-                                lp_len lp' = lp_len lp).
-      { unfold call_action in Hcall.
-        destruct (nth_error (lr_prods tb) (N.to_nat p)) as [lp'|]; [|discriminate].
-        exists lp'. split; [reflexivity|].
-        destruct (negb (Nat.eqb (length (firstn (lp_len lp') ts)) (lp_len lp'))); [discriminate|].
-        destruct (negb (N.ltb (lp_lhs lp') (lr_nnt tb))); [discriminate|].
-        inversion Hcall. reflexivity. }
-      destruct Hlp as (lp' & Elp' & Elen).
+      assert (Hn : lp_len lp < length (cur :: below)).
+      { assert (H0 : length (skipn (lp_len lp) (cur :: below)) = length (s :: rest))
+          by (rewrite Hsk; reflexivity).
+        rewrite skipn_length in H0. cbn [length] in H0 |- *. lia. }
       constructor.
-      + rewrite <- Hsk. apply eps_inv_skipn; [exact He|].
-        apply Nat.ltb_ge in Hlt. simpl in *. 
-        destruct (lp_len lp) as [|k] eqn:Ek; [simpl; lia|].
-        assert (length (skipn (S k) (cur :: below)) = length (s :: rest)) by (rewrite Hsk; reflexivity).
-        rewrite skipn_length in H0. simpl in H0. simpl. lia.
-      + intros Hy' a Hroot. cbn [root_sym] in Hroot. inversion Hroot; subst a. rewrite Elhs.
-        unfold eps_edge. apply orb_true_iff.
-        destruct (lp_len lp) as [|k] eqn:Ek.
-        * (* the reducing state is the state the result is pushed on *)
-          right. simpl in Hsk. inversion Hsk; subst s rest.
-          unfold local_eps. rewrite Hst. apply existsb_exists. exists (lookahead inp, ai).
-          split; [exact Ein|]. cbn [snd]. rewrite Eact, N.eqb_refl, Elp', Elen. reflexivity.
-        * (* all popped subtrees are empty, so their roots are marked *)
-          left. apply memN_In. unfold glob, eps_red_nts. apply in_flat_map.
-          exists (Reduce nt p). split; [apply (nth_error_In _ _ Eact)|].
-          rewrite Elp', Epr, Elen. cbn [Nat.eqb negb andb].
-          apply tree_ok_node in Hnode. destruct Hnode as (_ & Hrhs & Hch).
-          cbn [yield] in Hy'.
-          assert (Hall : forallb (null_sym nl) (rhs pr) = true).
-          { rewrite <- Hrhs. clear Hrhs. revert Hch Hy'.
-            generalize (rev (firstn (S k) ts)). intros chs Hch Hy'.
-            induction Hch as [|ch chs Hc _ IH]; [reflexivity|].
-            simpl in Hy'. apply app_eq_nil in Hy'. destruct Hy' as [Hy1 Hy2].
-            simpl. rewrite (eps_root_null g nl rk Hac ch Hc Hy1). apply IH. exact Hy2. }
-          rewrite Hall. left. reflexivity.
+      + rewrite <- Hsk. apply eps_inv_skipn; [exact He|exact Hn].
+      + intros Hy' a Hroot. cbn [root_sym] in Hroot. inversion Hroot; subst a.
+        split; [|rewrite Elhs; unfold goto_of; rewrite Est'; exact Egt].
+        pose proof Hnode as Hnode'. apply tree_ok_node in Hnode'.
+        destruct Hnode' as (_ & Hrhs & Hch). cbn [yield] in Hy'.
+        (* all popped subtrees are empty: they are inner nodes with marked roots *)
+        assert (Hpop : forall c, In c (firstn (lp_len lp) ts) ->
+                                 yield c = [] /\ exists a, root_sym c = NT a).
+        { intros c Hc. rewrite in_rev in Hc.
+          assert (Hyc : yield c = []) by (apply (flat_map_nil_inv _ _ Hy' c Hc)).
+          split; [exact Hyc|]. rewrite Forall_forall in Hch.
+          destruct (eps_tree g nl rk Hac c (Hch c Hc) Hyc) as (pc & csc & -> & _).
+          exists (lhs pc). reflexivity. }
+        assert (Hall : forallb (null_sym nl) (rhs pr) = true).
+        { rewrite <- Hrhs. clear Hrhs Hpop. revert Hch Hy'.
+          generalize (rev (firstn (lp_len lp) ts)). intros chs Hch Hy'.
+          induction Hch as [|ch chs Hc _ IH]; [reflexivity|].
+          simpl in Hy'. apply app_eq_nil in Hy'. destruct Hy' as [Hy1 Hy2].
+          simpl. rewrite (eps_root_null g nl rk Hac ch Hc Hy1). apply IH. exact Hy2. }
+        destruct (eps_inv_chain (lp_len lp) (cur :: below) ts cur below He eq_refl Hn Hpop)
+          as (t0 & rest0 & Hsk0 & Hchain).
+        rewrite Hsk in Hsk0. inversion Hsk0; subst t0 rest0.
+        specialize (Hchain [] cur eq_refl). rewrite app_nil_r, Hrhs in Hchain.
+        apply (eps_closed_spec g tb nl E p pr s st' cur Hclosed Epr Hall Est' Hchain).
+        (* the reducing state has the action that was just taken *)
+        unfold has_reduce. rewrite Hst. apply existsb_exists. exists (lookahead inp, ai).
+        split; [exact Ein|]. cbn [snd]. rewrite Eact, Elhs, !N.eqb_refl. reflexivity.
     - destruct (find_start_prod tb) as [p0|]; [|discriminate].
       destruct (call_action tb p0 ts) as [site|[n ts']]; discriminate.
   Qed.
@@ -738,7 +829,7 @@ Section Termination.
       pose proof (rkn_le_max srk 0%N). fold K in H. lia.
     - inversion Hok as [|t0 ts0 Hokt Hokts]; subst.
       inversion He as [s0|s0' s1 ss' t0 ts0 He' Hedge]; subst.
-      destruct (IH He' Hokts) as (s1' & ss'' & E & IH'). inversion E; subst s1' ss''.
+      destruct (IH He' Hokts) as (s1' & ss'' & Eq1 & IH'). inversion Eq1; subst s1' ss''.
       exists s, (s1 :: ss'). split; [reflexivity|].
       unfold ecount, ycount in *. simpl.
       destruct (is_eps t) eqn:Eie; simpl.
@@ -747,13 +838,10 @@ Section Termination.
         clear Eie. destruct (eps_tree g nl rk Hac t Hokt Ey) as (p & cs & -> & Hmark & _).
         destruct l as [|[x c] l']; [|].
         { (* empty annotation: excluded by the check *)
-          unfold stack_rank_ok in Hsr. unfold ann_of in Hl.
-          pose proof (forallbi_nth _ _ _ _ _ Hsr Hl) as H.
-          replace (0 + N.of_nat (N.to_nat s))%N with s in H by lia.
-          unfold stack_state_ok in H. destruct (N.eqb_spec s 0) as [E0|_]; [contradiction|discriminate]. }
+          contradiction Hne. apply (stack_rank_ok_nonempty g tb nl ann E srk s Hsr Hl). }
         simpl in Hm. destruct Hm as (Hroot & Hin & _). cbn [root_sym] in Hroot. subst x.
-        pose proof (stack_rank_ok_spec g tb nl ann srk s (lhs p) c l' s1 Hsr Hl Hne Hmark Hin
-                      (Hedge Ey (lhs p) eq_refl)) as Hlt.
+        pose proof (stack_rank_ok_spec g tb nl ann E srk s (lhs p) c l' s1 Hsr Hl Hne Hmark Hin
+                      (proj1 (Hedge Ey (lhs p) eq_refl))) as Hlt.
         assert (Hlt' : rkn srk s < rkn srk s1).
         { unfold srk_lt in Hlt. unfold rkn, rk_of.
           destruct (nth_error srk (N.to_nat s)) as [r'|]; [|discriminate].
@@ -766,8 +854,8 @@ Section Termination.
   Lemma solid_yield ts : ycount ts <= length (flat_map yield ts).
   Proof.
     unfold ycount. induction ts as [|t ts IH]; [simpl; lia|]. simpl. rewrite app_length.
-    destruct (is_eps t) eqn:E; simpl; [lia|].
-    unfold is_eps in E. destruct (yield t) as [|y ys]; [discriminate|simpl; lia].
+    destruct (is_eps t) eqn:Et; simpl; [lia|].
+    unfold is_eps in Et. destruct (yield t) as [|y ys]; [discriminate|simpl; lia].
   Qed.
 
   Lemma forest_nodes ts : Forall (tree_ok g) ts ->
@@ -810,8 +898,8 @@ Section Termination.
     - pose proof (inv_progress toks c Hc He). lia.
     - simpl. pose proof (step_spec g tb ann Hchk toks c Hc) as Hp.
       pose proof (step_eps toks c) as Hpe.
-      destruct (lr_step tb c) as [c'|r] eqn:E.
-      + apply IH; [exact Hp|apply (Hpe c' Hc He eq_refl)|]. rewrite (step_progress tb c c' E). lia.
+      destruct (lr_step tb c) as [c'|r] eqn:Est.
+      + apply IH; [exact Hp|apply (Hpe c' Hc He eq_refl)|]. rewrite (step_progress tb c c' Est). lia.
       + intros ->. exact Hp.
   Qed.
 End Termination.
@@ -819,12 +907,12 @@ End Termination.
 (** The main theorem: on a table that passes the safety check, for a grammar and a table with
     the two rank certificates, the parser loop stops within [lr_fuel_bound] iterations, whatever
     the input is. *)
-Theorem lr_terminates : forall g tb ann nl rk srk toks,
-  lr_safe_check g tb ann = true -> acyclic_ok g nl rk = true -> stack_rank_ok g tb nl ann srk = true ->
+Theorem lr_terminates : forall g tb ann nl rk E srk toks,
+  lr_safe_check g tb ann = true -> acyclic_ok g nl rk = true -> stack_rank_ok g tb nl ann E srk = true ->
   lr_run (lr_fuel_bound g rk srk toks) tb toks <> OutOfFuel.
 Proof.
-  intros g tb ann nl rk srk toks Hchk Hac Hsr. unfold lr_run, lr_fuel_bound.
-  apply (loop_terminates g tb ann nl rk srk Hchk Hac Hsr toks); [apply init_inv|constructor|].
+  intros g tb ann nl rk E srk toks Hchk Hac Hsr. unfold lr_run, lr_fuel_bound.
+  apply (loop_terminates g tb ann nl rk E srk Hchk Hac Hsr toks); [apply init_inv|constructor|].
   unfold progress. simpl. lia.
 Qed.
 
@@ -837,25 +925,25 @@ Proof.
   destruct (lr_step tb c) as [c'|r]; [|reflexivity]. apply IH; [lia|exact H].
 Qed.
 
-Theorem lr_terminates_any_fuel : forall g tb ann nl rk srk toks fuel,
-  lr_safe_check g tb ann = true -> acyclic_ok g nl rk = true -> stack_rank_ok g tb nl ann srk = true ->
+Theorem lr_terminates_any_fuel : forall g tb ann nl rk E srk toks fuel,
+  lr_safe_check g tb ann = true -> acyclic_ok g nl rk = true -> stack_rank_ok g tb nl ann E srk = true ->
   lr_fuel_bound g rk srk toks <= fuel ->
   lr_run fuel tb toks = lr_run (lr_fuel_bound g rk srk toks) tb toks /\
   lr_run fuel tb toks <> OutOfFuel.
 Proof.
-  intros g tb ann nl rk srk toks fuel Hchk Hac Hsr Hle.
-  pose proof (lr_terminates g tb ann nl rk srk toks Hchk Hac Hsr) as H.
-  assert (E : lr_run fuel tb toks = lr_run (lr_fuel_bound g rk srk toks) tb toks)
+  intros g tb ann nl rk E srk toks fuel Hchk Hac Hsr Hle.
+  pose proof (lr_terminates g tb ann nl rk E srk toks Hchk Hac Hsr) as H.
+  assert (Eq : lr_run fuel tb toks = lr_run (lr_fuel_bound g rk srk toks) tb toks)
     by (apply lr_loop_mono; assumption).
-  split; [exact E|]. rewrite E. exact H.
+  split; [exact Eq|]. rewrite Eq. exact H.
 Qed.
 
-Theorem lr_terminates_ex : forall g tb ann nl rk srk,
-  lr_safe_check g tb ann = true -> acyclic_ok g nl rk = true -> stack_rank_ok g tb nl ann srk = true ->
+Theorem lr_terminates_ex : forall g tb ann nl rk E srk,
+  lr_safe_check g tb ann = true -> acyclic_ok g nl rk = true -> stack_rank_ok g tb nl ann E srk = true ->
   forall toks, exists fuel, lr_run fuel tb toks <> OutOfFuel.
 Proof.
-  intros g tb ann nl rk srk Hchk Hac Hsr toks. exists (lr_fuel_bound g rk srk toks).
-  apply (lr_terminates g tb ann nl rk srk toks Hchk Hac Hsr).
+  intros g tb ann nl rk E srk Hchk Hac Hsr toks. exists (lr_fuel_bound g rk srk toks).
+  apply (lr_terminates g tb ann nl rk E srk toks Hchk Hac Hsr).
 Qed.
 
 (** ** Examples *)
@@ -869,14 +957,18 @@ Definition eps_ann : annotation :=
 Example eps_cert : find_acyclic_cert eps_g = ([true; true], [1; 0]%N).
 Proof. vm_compute. reflexivity. Qed.
 
-Example eps_stack_ranks : find_stack_ranks eps_g eps_tb [true; true] eps_ann = [1; 0; 0]%N.
+Example eps_eps_set : find_eps_set eps_g eps_tb [true; true] = [(0, 1)]%N.
+Proof. vm_compute. reflexivity. Qed.
+
+Example eps_stack_ranks : find_stack_ranks [true; true] eps_ann [(0, 1)]%N = [1; 0; 0]%N.
 Proof. vm_compute. reflexivity. Qed.
 
 Example eps_terminates_instance :
+  let nl := fst (find_acyclic_cert eps_g) in
+  let E := find_eps_set eps_g eps_tb nl in
   lr_safe_check eps_g eps_tb eps_ann = true /\
-  acyclic_ok eps_g (fst (find_acyclic_cert eps_g)) (snd (find_acyclic_cert eps_g)) = true /\
-  stack_rank_ok eps_g eps_tb (fst (find_acyclic_cert eps_g)) eps_ann
-    (find_stack_ranks eps_g eps_tb (fst (find_acyclic_cert eps_g)) eps_ann) = true /\
+  acyclic_ok eps_g nl (snd (find_acyclic_cert eps_g)) = true /\
+  stack_rank_ok eps_g eps_tb nl eps_ann E (find_stack_ranks nl eps_ann E) = true /\
   lr_fuel_bound eps_g [1; 0]%N [1; 0; 0]%N [5; 5]%N = 94 /\
   exists t, lr_run 94 eps_tb [5; 5]%N = Accepted [2; 1; 1; 0]%N [t].
 Proof.
@@ -888,9 +980,10 @@ Qed.
 (** [ex_g]: [S' -> S; S -> ( S ) | x] (no nullable non-terminal). *)
 Example ex_terminates_instance :
   let (nl, rk) := find_acyclic_cert ex_g in
+  let E := find_eps_set ex_g ex_tb nl in
   acyclic_ok ex_g nl rk = true /\
-  stack_rank_ok ex_g ex_tb nl ex_ann (find_stack_ranks ex_g ex_tb nl ex_ann) = true /\
-  lr_run (lr_fuel_bound ex_g rk (find_stack_ranks ex_g ex_tb nl ex_ann) [5; 5; 7; 6; 6]%N) ex_tb
+  stack_rank_ok ex_g ex_tb nl ex_ann E (find_stack_ranks nl ex_ann E) = true /\
+  lr_run (lr_fuel_bound ex_g rk (find_stack_ranks nl ex_ann E) [5; 5; 7; 6; 6]%N) ex_tb
          [5; 5; 7; 6; 6]%N
   = lr_run 100 ex_tb [5; 5; 7; 6; 6]%N.
 Proof. vm_compute. repeat split; reflexivity. Qed.
@@ -930,11 +1023,11 @@ Example amb_terminates_instance :
   lr_safe_check amb_g amb_tb amb_ann = true /\
   find_acyclic_cert amb_g = ([true; true], [0; 1]%N) /\
   acyclic_ok amb_g [true; true] [0; 1]%N = true /\
-  find_stack_ranks amb_g amb_tb [true; true] amb_ann = [2; 1; 0; 0]%N /\
-  stack_rank_ok amb_g amb_tb [true; true] amb_ann [2; 1; 0; 0]%N = true /\
+  find_eps_set amb_g amb_tb [true; true] = [(1, 0); (0, 0)]%N /\
+  find_stack_ranks [true; true] amb_ann [(1, 0); (0, 0)]%N = [2; 1; 0; 0]%N /\
+  stack_rank_ok amb_g amb_tb [true; true] amb_ann [(1, 0); (0, 0)]%N [2; 1; 0; 0]%N = true /\
   (* the self-edge of state 2 is there, but it is not an edge for empty subtrees *)
   nth_error amb_ann 2 = Some [(NT 0%N, [2; 1]%N); (NT 0%N, [2; 1; 0]%N)] /\
-  eps_edge amb_tb (eps_red_nts amb_g amb_tb [true; true]) 2 0 = false /\
   exists reds t, lr_run (lr_fuel_bound amb_g [0; 1]%N [2; 1; 0; 0]%N [5; 5]%N) amb_tb [5; 5]%N
                  = Accepted reds [t].
 Proof.
@@ -942,6 +1035,50 @@ Proof.
   split; [vm_compute; reflexivity|]. split; [vm_compute; reflexivity|].
   split; [vm_compute; reflexivity|]. split; [vm_compute; reflexivity|].
   split; [vm_compute; reflexivity|]. eexists. eexists. vm_compute. reflexivity.
+Qed.
+
+(** *** A second real table: nullable through a chain
+
+    [S' -> A; A -> a | B A a | ; B -> A] in the driver's numbering: non-terminals 0 = A,
+    1 = S' (start), 2 = B; terminal 5 = a; productions 0: [S' -> A], 1: [A -> a],
+    2: [A -> B A a], 3: [A -> ], 4: [B -> A].  [B] is nullable through [B -> A -> ], and state 3
+    (entered on [B] from state 0 and from itself) has the self-edge [3 -B-> 3].  But an empty
+    [B] can only be pushed on state 0: state 3 has no reduction of [A -> ], so neither [(3, A)]
+    nor [(3, B)] is in the least closed set, and the self-edge does not count. *)
+Definition bae_g : cfg :=
+  mkCfg 1 [mkProd 1 [NT 0%N]; mkProd 0 [T 5%N]; mkProd 0 [NT 2%N; NT 0%N; T 5%N]; mkProd 0 [];
+           mkProd 2 [NT 0%N]].
+
+Definition bae_tb : lr_table :=
+  mkLRTable
+    [Reduce 0 3; Shift 1; Reduce 0 1; Accept; Reduce 2 4; Shift 5; Reduce 0 2]
+    [ mkLRState [(0, 0); (5, 1)] [(0, 2); (2, 3)];
+      mkLRState [(0, 2); (5, 2)] [];
+      mkLRState [(0, 3); (5, 4)] [];
+      mkLRState [(5, 1)] [(0, 4); (2, 3)];
+      mkLRState [(5, 5)] [];
+      mkLRState [(0, 6); (5, 6)] [] ]%N
+    [mkLRProd 1 1; mkLRProd 0 1; mkLRProd 0 3; mkLRProd 0 0; mkLRProd 2 1]
+    1 6 3.
+
+Definition bae_ann : annotation :=
+  match infer_annotation 20 bae_tb with Some a => a | None => [] end.
+
+Example bae_terminates_instance :
+  let (nl, rk) := find_acyclic_cert bae_g in
+  let E := find_eps_set bae_g bae_tb nl in
+  let srk := find_stack_ranks nl bae_ann E in
+  lr_safe_check bae_g bae_tb bae_ann = true /\
+  nl = [true; true; true] /\ rk = [0; 1; 1]%N /\
+  acyclic_ok bae_g nl rk = true /\
+  E = [(0, 2); (0, 0)]%N /\
+  srk = [1; 0; 0; 0; 0; 0]%N /\
+  stack_rank_ok bae_g bae_tb nl bae_ann E srk = true /\
+  (* state 3 may sit on itself with incoming symbol B, a marked non-terminal *)
+  nth_error bae_ann 3 = Some [(NT 2%N, [3; 0]%N)] /\
+  exists reds t, lr_run (lr_fuel_bound bae_g rk srk [5; 5; 5]%N) bae_tb [5; 5; 5]%N = Accepted reds [t].
+Proof.
+  vm_compute. repeat (split; [reflexivity|]). eexists. eexists. reflexivity.
 Qed.
 
 (** *** The cyclic grammar [S: A; A: A | 'a';]
@@ -1061,13 +1198,20 @@ Proof.
   destruct (H g tb ann nl rk H1 H2 toks) as (fuel & Hf). apply Hf. apply H3.
 Qed.
 
-(** The table certificate catches it: no state ranking passes. *)
-Example mal_no_stack_ranks : forall srk, stack_rank_ok mal_g mal_tb [false; true] mal_ann srk = false.
+(** The table certificate catches it: state 1 reduces [A -> ] and goes to itself on [A], so
+    [(1, A)] is in every closed set, and no state ranking passes. *)
+Example mal_no_stack_ranks :
+  forall E srk, stack_rank_ok mal_g mal_tb [false; true] mal_ann E srk = false.
 Proof.
-  intros srk. apply not_true_iff_false. intros H.
+  intros E srk. apply not_true_iff_false. intros H.
+  assert (Hc : eps_closed mal_g mal_tb [false; true] E = true).
+  { unfold stack_rank_ok in H. apply andb_prop in H. apply H. }
+  assert (He : eps_edge E 1 1 = true).
+  { apply (eps_closed_spec mal_g mal_tb [false; true] E 1 (mkProd 1 []) 1
+             (mkLRState [(5, 0)] [(1, 1)])%N 1 Hc); reflexivity. }
   assert (Hlt : srk_lt srk 1 1 = true).
-  { apply (stack_rank_ok_spec mal_g mal_tb [false; true] mal_ann srk 1 1 [0; 1]%N [] 1%N H);
-      [reflexivity|discriminate|reflexivity|right; left; reflexivity|vm_compute; reflexivity]. }
+  { apply (stack_rank_ok_spec mal_g mal_tb [false; true] mal_ann E srk 1 1 [0; 1]%N [] 1%N H);
+      [reflexivity|discriminate|reflexivity|right; left; reflexivity|exact He]. }
   unfold srk_lt in Hlt. destruct (nth_error srk (N.to_nat 1)); [|discriminate].
   rewrite N.ltb_irrefl in Hlt. discriminate.
 Qed.
